@@ -1,7 +1,8 @@
 (** Extraction of the tracking model (ExtrOcamlBasic only; numbers stay Coq's positive/Z/Q). *)
 From Coq Require Import Extraction ExtrOcamlBasic.
 From Coq Require Import List ZArith QArith Qcanon.
-From Inovesa Require Import Base.FieldKit Base.Float32 Gen.Gen_Coeffs Model.Kick Model.Tracking.
+From Inovesa Require Import Base.FieldKit Base.Float32 Gen.Gen_Coeffs Model.Kick Model.Tracking
+  Model.TrackX Gen.Gen_Track Model.DynRF Model.TrackGen.
 
 Extraction Language OCaml.
 
@@ -13,4 +14,4 @@ Definition blob_moments (n : Z) (out : list Qc) : Qc * (Qc * Qc) :=
 
 Extraction "model_track.ml"
   Q2Qc this run_list fp_table_list lookup_list blob_list blob_moments kick_x_list kick_y_list
-  kick_applyTo.
+  kick_applyTo gen_run_list linear_rf dyn_step_list gen_load_list gen_append_list.
